@@ -168,7 +168,9 @@ def preloop_store(repo, run):
     rid = run.rule("C04.6", "before the step loop integrate() overwrites the requested step only under |self.dt| > |tf - t[counter]| (magnitudes on both sides): a "
                             "signed comparison shortens every backward run's step to half the span", floor=1)
     m = IntegrateModel(repo)
+    from ..sym import inline_locals
     c = m.canon
+    env_loc = inline_locals(m.fn)
     kl = path_key(m.loop, m.fn)
     stores = [st for st in walk_no_nested(m.fn) if isinstance(st, (ast.Assign, ast.AugAssign)) and path_key(st, m.fn) < kl and
               any(is_self_attr(t, "dt") or is_self_attr(t, "__dt") for t in (st.targets if isinstance(st, ast.Assign) else [st.target]))]
@@ -184,9 +186,14 @@ def preloop_store(repo, run):
             leaf = bt.leaves.get(a)
             if isinstance(leaf, tuple):
                 left, op, right = leaf
-                for x, y, ops in ((left, right, (ast.Gt, ast.GtE)), (right, left, (ast.Lt, ast.LtE))):
+                def res(n):
+                    k = 0
+                    while isinstance(n, ast.Name) and n.id in env_loc and n.id != m.tf and k < 8:
+                        n, k = env_loc[n.id], k + 1
+                    return n
+                for x, y, ops in ((res(left), res(right), (ast.Gt, ast.GtE)), (res(right), res(left), (ast.Lt, ast.LtE))):
                     ax, ay = _abs_arg(x), _abs_arg(y)
-                    if ax is not None and ay is not None and isinstance(op, ops) and is_self_attr(ax) and ax.attr in ("dt", "__dt") and _is_remaining(m, c, ay):
+                    if ax is not None and ay is not None and isinstance(op, ops) and is_self_attr(res(ax)) and res(ax).attr in ("dt", "__dt") and _is_remaining(m, c, ay):
                         good.append(a)
         others = [a for a in atoms if a not in good and not a.split("@")[0].startswith(("t Is None", "None Is t"))]
         ok = len(good) == 1 and not others and equivalent(pc, lambda asg: asg[good[0].split("@")[0]])[0] if len(good) == 1 and not others else False
